@@ -6,6 +6,8 @@ from common import *
 
 def _floor_near_min(line):
     t = line.split()
+    if t[0] in ("efloor", "eceil", "eround") and len(t) == 6:      # the Epoch forms act on the elapsed time in the epoch's own scale
+        t = [t[0][1:], t[1], t[2], t[4], t[5]]
     if t[0] not in ("floor", "ceil", "round") or len(t) != 5:
         return False
     d = val_of_parts(int(t[1]), int(t[2]))
